@@ -85,7 +85,7 @@ func buildLayout(c pixCase, pix []byte, garbage byte) (image.Image, []byte) {
 func checkC19(args []string) {
 	run := vx.NewRun("C19", "exploration", args)
 	run.Rule = "layout space enumerated by TLC from spec/Pixels.tla (image type x size x view origin x parent margins x stride padding x generic wrapper; the view arithmetic is checked to stay inside the buffer without sharing bytes) crossed with encoder configurations (lossy/lossless x alpha class x Exact x sharp YUV x dithering); for one picture per (type, size, alpha class) every layout must give byte-identical output, also with a second garbage pattern outside the bounds, and the caller's buffer must be unchanged. distinct = distinct (layout, configuration) pairs"
-	run.Assumptions = []string{"RGBA layouts (premultiplied storage) are compared among themselves; the generic wrapper of an RGBA picture is compared only for opaque pictures, because un-premultiplying through color.NRGBAModel and through the fast path may legitimately round differently"}
+	run.Assumptions = []string{"RGBA layouts (premultiplied storage) are compared among themselves, including the generic wrapper yielding the same color.RGBA values"}
 	res := vx.MustTLC(vx.TLCOpts{Module: "Pixels", Cfg: "GEN_Pixels.cfg", Workers: 1, Timeout: 20 * time.Minute})
 	if res.InvViolated != "" {
 		vx.Fatal2("Pixels model: invariant %s violated (spec bug)", res.InvViolated)
@@ -131,9 +131,6 @@ func checkC19(args []string) {
 	for _, c := range cases {
 		for _, cfg := range c.Cfgs {
 			if !run.Thorough() && (cfg.Sharp && cfg.Dither) {
-				continue
-			}
-			if c.Lay.Typ == "RGBA" && c.Lay.Wrap == "generic" && cfg.Alpha != "opaque" {
 				continue
 			}
 			pix := picFor(c.Lay.Typ, c.Lay.Size[0], c.Lay.Size[1], cfg.Alpha)
